@@ -63,6 +63,11 @@ def effects(res):
             key = e.args[1]
             val = e.args[2] if len(e.args) > 2 else None
             out.append(('map-' + e.name, e.args[0].s, key, val))
+        elif e.kind == 'entry-cell' and len(e.args) == 3:
+            # `*entry.get_mut() = v` / `mem::swap(entry.get_mut(), &mut v)`: the entry's value was replaced in place
+            final = res.path.mem.get(e.args[1].key)
+            if final is not None and vname(final) != vname(e.args[2]):
+                out.append(('map-insert', e.name, e.args[0], final))
         elif e.kind == 'close':
             out.append(('close', e.args[0].s))
         elif e.kind == 'send':
